@@ -221,7 +221,25 @@ def warm(fock=True):
             ops.Rgate(0.3) | q[0]
             ops.Kgate(0.1) | q[0]
             ops.LossChannel(0.9) | q[1]
-        sf.Engine("fock", backend_options={"cutoff_dim": 4, "pure": pure}).run(p)
+            ops.Xgate(0.1) | q[0]
+            ops.Zgate(0.1) | q[0]
+            ops.Pgate(0.1) | q[0]
+            ops.CXgate(0.1) | (q[0], q[1])
+            ops.CZgate(0.1) | (q[0], q[1])
+            ops.Vgate(0.1) | q[0]
+            ops.Fouriergate() | q[1]
+            ops.Coherent(0.1, 0.2) | q[1]
+            ops.Squeezed(0.1, 0.2) | q[1]
+            ops.DisplacedSqueezed(0.1, 0.2, 0.1, 0.3) | q[1]
+            ops.Thermal(0.1) | q[1]
+            ops.Vacuum() | q[1]
+            (r,) = ops.New(1)
+            ops.Dgate(0.1, 0.1) | r
+            ops.MeasureHomodyne(0.2, select=0.1) | q[0]
+            ops.MeasureHomodyne(0.1) | q[1]
+            ops.Del | r
+        st = sf.Engine("fock", backend_options={"cutoff_dim": 4, "pure": pure}).run(p).state
+        st.reduced_dm(0), st.fock_prob([0, 0]), st.mean_photon(0), st.quad_expectation(0), st.all_fock_probs()
     _WARM.add("fock")
 
 
